@@ -187,6 +187,8 @@ def send_data(sock: socket.socket, data: bytes) -> None:
             raise ConnectionClosedError("sending: connection lost: " + str(x))
     else:
         # Socket is in non-blocking mode, use regular send loop.
+        if isinstance(data, memoryview):
+            data = data.cast("B")    # send() counts bytes: slice the remainder by bytes, also when the view's items are wider
         delays = __retrydelays()
         while data:
             try:
